@@ -93,9 +93,24 @@ func CDecompressSafe(src []byte) (dst cmem.CArray, err error) {
 		return
 	}
 	sizeD := SizeDecompressed(src)
+	if src[0]&1 == 0 && sizeC != sizeD+headerLen(src) {
+		// stored (not compressed) stream: qlz_decompress copies sizeD bytes from the source unchecked
+		err = fmt.Errorf("bad sizes of a stored stream, compressed %d, decompressed %d", sizeC, sizeD)
+		return
+	}
 	dst, err = CDecompress(src, sizeD)
 	if err != nil {
-		return
+		// the bounds-checked C decoder also refuses valid streams of 1..3 bytes written by the Go
+		// encoder (no trailing padding): let the Go decoder decide
+		d, e := DecompressSafe(src)
+		if e != nil {
+			return
+		}
+		dst.Free()
+		if dst.Alloc(len(d)) {
+			copy(dst.Body, d)
+			err = nil
+		}
 	}
 	return
 }
